@@ -33,7 +33,8 @@ struct Proj {
     bin: String,
 }
 
-const FILES: &[&str] = &["src/a.rs", "src/b.rs", "src/c.rs", "src/sub/d.rs", "lib/e.rs"];
+// `.lib/e.rs` and `lib/e.rs` differ only by a leading dot: two files, two baseline keys
+const FILES: &[&str] = &["src/a.rs", "src/b.rs", "src/c.rs", "src/sub/d.rs", "lib/e.rs", ".lib/e.rs"];
 
 impl Proj {
     fn write_file(&self, rel: &str, lines: usize) {
